@@ -1,8 +1,16 @@
-// placeholder: replaced by the real scheduler (SimSched/SimGSL) below in this file's history
-#include "simrandom.h"
+// SimSched/SimGSL implementation. This translation unit is compiled WITHOUT ThreadSanitizer
+// instrumentation in the tsan flavour (Makefile), see sched.h.
+#include "sched.h"
+#include <cerrno>
+#include <climits>
+#include <cstdio>
 #include <gsl/gsl_errno.h>
 #include <gsl/gsl_integration.h>
+#include <linux/futex.h>
 #include <pthread.h>
+#include <sys/syscall.h>
+#include <unistd.h>
+
 extern "C" {
 gsl_error_handler_t * __real_gsl_set_error_handler(gsl_error_handler_t *);
 gsl_error_handler_t * __real_gsl_set_error_handler_off(void);
@@ -10,15 +18,345 @@ int __real_gsl_integration_qng(const gsl_function *, double, double, double, dou
 int __real_pthread_mutex_lock(pthread_mutex_t *);
 int __real_pthread_mutex_unlock(pthread_mutex_t *);
 int __real_pthread_mutex_trylock(pthread_mutex_t *);
-gsl_error_handler_t * __wrap_gsl_set_error_handler(gsl_error_handler_t * h) { return __real_gsl_set_error_handler(h); }
-gsl_error_handler_t * __wrap_gsl_set_error_handler_off(void) { return __real_gsl_set_error_handler_off(); }
-int __wrap_gsl_integration_qng(const gsl_function * f, double a, double b, double ea, double er, double * r, double * ae, size_t * ne)
-{ return __real_gsl_integration_qng(f, a, b, ea, er, r, ae, ne); }
-int __wrap_pthread_mutex_lock(pthread_mutex_t * m) { return __real_pthread_mutex_lock(m); }
-int __wrap_pthread_mutex_unlock(pthread_mutex_t * m) { return __real_pthread_mutex_unlock(m); }
-int __wrap_pthread_mutex_trylock(pthread_mutex_t * m) { return __real_pthread_mutex_trylock(m); }
 }
-namespace sim {
-void sched_point(int, i64) {}
 
+namespace sim {
+namespace sched {
+
+namespace {
+
+struct Task
+{
+  int id = 0;
+  pthread_t th;
+  volatile int go = 0;
+  int state = 0; // 0 runnable, 1 blocked on a mutex, 2 finished
+  pthread_mutex_t * waiting_on = nullptr;
+  std::function<void()> body;
+  i64 kind_count[16] = {0};
+  i64 steps = 0;
+  std::vector<u64> vc;
+  int window_depth = 0;
+  i64 qng_index = 0;
+};
+
+struct Access { int task; u64 clock; };
+
+struct World
+{
+  std::vector<Task *> tasks;
+  volatile int ctl_go = 0;
+  std::vector<Decision> decisions;
+  std::set<std::pair<int, i64>> inject;
+  i64 max_steps = 0;
+  std::map<pthread_mutex_t *, int> owner;
+  std::map<pthread_mutex_t *, std::vector<u64>> mutex_vc;
+  Access last_write{-1, 0};
+  std::vector<Access> reads_since_write;
+  Result res;
+  int sig_events = 0;
+};
+
+thread_local Task * t_task = nullptr;
+World * g_world = nullptr;
+i64 g_total_qng = 0, g_total_qng_fail = 0;
+
+inline void futex_wait(volatile int * w, int val) { syscall(SYS_futex, (int *)w, FUTEX_WAIT, val, nullptr, nullptr, 0); }
+inline void futex_wake(volatile int * w) { syscall(SYS_futex, (int *)w, FUTEX_WAKE, INT_MAX, nullptr, nullptr, 0); }
+
+void park(volatile int * w)
+{
+  while (*w == 0) futex_wait(w, 0);
+  *w = 0;
+  __asm__ __volatile__("" ::: "memory");
 }
+void wake(volatile int * w)
+{
+  __asm__ __volatile__("" ::: "memory");
+  *w = 1;
+  futex_wake(w);
+}
+
+Task * pick_runnable(World & w, int preferred, Task * exclude)
+{
+  size_t n = w.tasks.size();
+  if (preferred >= 0 && (size_t)preferred < n) {
+    Task * p = w.tasks[(size_t)preferred];
+    if (p != exclude && p->state == 0) return p;
+  }
+  size_t start = exclude ? (size_t)exclude->id + 1 : 0;
+  for (size_t k = 0; k < n; k++) {
+    Task * p = w.tasks[(start + k) % n];
+    if (p != exclude && p->state == 0) return p;
+  }
+  return nullptr;
+}
+
+void switch_to(World & w, Task * self, Task * next)
+{
+  w.res.switches++;
+  wake(&next->go);
+  park(&self->go);
+}
+
+void sig_add(World & w, char c, int task)
+{
+  w.res.handler_events++;
+  if (w.sig_events++ < 32) { w.res.overlap_sig += c; w.res.overlap_sig += (char)('0' + task); }
+}
+
+/// vector-clock race check on the one process-wide variable the library manipulates through GSL
+void handler_access(World & w, Task * t, bool write, const char * what)
+{
+  auto hb = [&](const Access & a) { return a.task < 0 || a.task == t->id || a.clock <= t->vc[(size_t)a.task]; };
+  bool race = !hb(w.last_write);
+  std::string with = "write";
+  if (write) for (auto & r : w.reads_since_write) if (!hb(r)) { race = true; with = "read"; }
+  if (race) {
+    w.res.races++;
+    if (w.res.first_race.empty()) {
+      char b[200];
+      std::snprintf(b, sizeof b, "task %d %s (%s) is unordered with an earlier handler %s by task %d", t->id, write ? "writes the GSL error handler" : "has GSL read the error handler",
+                    what, with.c_str(), w.last_write.task);
+      w.res.first_race = b;
+    }
+  }
+  Access a{t->id, t->vc[(size_t)t->id]};
+  if (write) { w.last_write = a; w.reads_since_write.clear(); }
+  else w.reads_since_write.push_back(a);
+}
+
+void H0(const char * reason, const char * file, int line, int gsl_errno)
+{
+  World * w = g_world;
+  Task * t = t_task;
+  if (!w) return;
+  w->res.h0_calls++;
+  if (w->res.first_h0.empty()) {
+    char b[300];
+    std::snprintf(b, sizeof b, "GSL invoked the application's base error handler (GSL's default would abort) during a quadrature of task %d: %s (%s:%d, errno %d)",
+                  t ? t->id : -1, reason, file, line, gsl_errno);
+    w->res.first_h0 = b;
+  }
+}
+
+void * thread_main(void * arg)
+{
+  Task * t = (Task *)arg;
+  t_task = t;
+  park(&t->go);
+  World & w = *g_world;
+  sched_point(SP_TASK_START, 0);
+  try { t->body(); } catch (...) {}
+  t->state = 2;
+  // release the next runnable task, or report quiescence / deadlock to the controller
+  Task * next = pick_runnable(w, -1, t);
+  if (next) wake(&next->go);
+  else {
+    for (Task * o : w.tasks) if (o->state == 1) w.res.deadlock = true;
+    wake(&w.ctl_go);
+  }
+  t_task = nullptr;
+  return nullptr;
+}
+
+} // namespace
+
+int current_task() { return t_task ? t_task->id : -1; }
+i64 total_qng_calls() { return g_total_qng; }
+i64 total_qng_fails() { return g_total_qng_fail; }
+
+Result run(const std::vector<std::function<void()>> & bodies, std::vector<Decision> decisions, int first, const std::set<std::pair<int, i64>> & inject,
+           i64 max_steps)
+{
+  World w;
+  w.decisions = std::move(decisions);
+  w.inject = inject;
+  w.max_steps = max_steps;
+  size_t n = bodies.size();
+  for (size_t i = 0; i < n; i++) {
+    Task * t = new Task;
+    t->id = (int)i; t->body = bodies[i];
+    t->vc.assign(n, 0); t->vc[i] = 1;
+    w.tasks.push_back(t);
+  }
+  gsl_error_handler_t * before = __real_gsl_set_error_handler(&H0);
+  g_world = &w;
+  for (Task * t : w.tasks) pthread_create(&t->th, nullptr, thread_main, t);
+  Task * f = w.tasks[(size_t)first % n];
+  wake(&f->go);
+  park(&w.ctl_go);
+  if (!w.res.deadlock) {
+    for (Task * t : w.tasks) pthread_join(t->th, nullptr);
+  } // else: the blocked threads stay parked forever; the caller must retire this process
+  gsl_error_handler_t * after = __real_gsl_set_error_handler(before);
+  g_world = nullptr;
+  Result res = w.res;
+  res.handler_leaked = after != &H0;
+  for (Task * t : w.tasks) { res.steps += t->steps; if (!w.res.deadlock) delete t; }
+  for (auto & d : w.decisions) if (d.fired) res.decisions_fired++;
+  return res;
+}
+
+} // namespace sched
+
+// ---- schedule point (called from SimRandom draws, GSL and mutex wraps) --------------------------------
+void sched_point(int kind, i64)
+{
+  using namespace sched;
+  Task * t = t_task;
+  World * wp = g_world;
+  if (!t || !wp) return;
+  World & w = *wp;
+  t->steps++;
+  if (kind >= 0 && kind < 16) t->kind_count[kind]++;
+  if (t->steps > w.max_steps) { w.res.step_overflow = true; return; }
+  for (auto & d : w.decisions) {
+    if (d.fired || d.from != t->id) continue;
+    bool hit = d.kind == 0 ? (t->steps == d.nth) : (d.kind == kind && t->kind_count[kind] == d.nth);
+    if (!hit) continue;
+    d.fired = true;
+    Task * next = pick_runnable(w, d.to, t);
+    if (next) switch_to(w, t, next);
+    break;
+  }
+}
+
+} // namespace sim
+
+// ---- link-time seams -------------------------------------------------------------------------------------
+using namespace sim;
+using namespace sim::sched;
+
+extern "C" {
+
+gsl_error_handler_t * __wrap_gsl_set_error_handler_off(void)
+{
+  Task * t = t_task; World * w = g_world;
+  if (!t || !w) return __real_gsl_set_error_handler_off();
+  sched_point(SP_GSL_OFF_PRE, 0);
+  gsl_error_handler_t * old = __real_gsl_set_error_handler_off();
+  shadow_handler_rw();
+  handler_access(*w, t, true, "gsl_set_error_handler_off");
+  t->window_depth++;
+  sig_add(*w, 'o', t->id);
+  sched_point(SP_GSL_OFF_POST, 0);
+  return old;
+}
+
+gsl_error_handler_t * __wrap_gsl_set_error_handler(gsl_error_handler_t * h)
+{
+  Task * t = t_task; World * w = g_world;
+  if (!t || !w) return __real_gsl_set_error_handler(h);
+  sched_point(SP_GSL_SET_PRE, 0);
+  gsl_error_handler_t * old = __real_gsl_set_error_handler(h);
+  shadow_handler_rw();
+  handler_access(*w, t, true, "gsl_set_error_handler");
+  if (t->window_depth > 0) t->window_depth--;
+  sig_add(*w, 'r', t->id);
+  sched_point(SP_GSL_SET_POST, 0);
+  return old;
+}
+
+int __wrap_gsl_integration_qng(const gsl_function * f, double a, double b, double ea, double er, double * r, double * ae, size_t * ne)
+{
+  Task * t = t_task; World * w = g_world;
+  if (!t || !w) {
+    int st = __real_gsl_integration_qng(f, a, b, ea, er, r, ae, ne);
+    g_total_qng++; if (st != 0) g_total_qng_fail++;
+    return st;
+  }
+  sched_point(SP_QNG_PRE, 0);
+  int st = __real_gsl_integration_qng(f, a, b, ea, er, r, ae, ne);
+  g_total_qng++;
+  w->res.qng_calls++;
+  i64 idx = t->qng_index++;
+  if (st != 0) {
+    // GSL itself called gsl_error(): it read the process-wide handler
+    g_total_qng_fail++;
+    w->res.real_misses++;
+    shadow_handler_r();
+    handler_access(*w, t, false, "real tolerance miss");
+    sig_add(*w, 'f', t->id);
+  } else if (w->inject.count({t->id, idx})) {
+    // buggify: a usually-successful call reports a retryable error the caller already handles
+    w->res.injected_misses++;
+    gsl_error("injected: failed to reach tolerance", __FILE__, __LINE__, GSL_ETOL);
+    shadow_handler_r();
+    handler_access(*w, t, false, "injected tolerance miss");
+    sig_add(*w, 'i', t->id);
+    st = GSL_ETOL;
+  }
+  sched_point(SP_QNG_POST, 0);
+  return st;
+}
+
+int __wrap_pthread_mutex_lock(pthread_mutex_t * m)
+{
+  Task * t = t_task; World * w = g_world;
+  if (!t || !w) return __real_pthread_mutex_lock(m);
+  sched_point(SP_MUTEX, 0);
+  int spins = 0;
+  while (true) {
+    auto it = w->owner.find(m);
+    int own = it == w->owner.end() ? -1 : it->second;
+    if (own == -1 || own == t->id) {
+      int rc = __real_pthread_mutex_trylock(m);
+      if (rc == 0) {
+        w->owner[m] = t->id;
+        w->res.mutex_acquires++;
+        auto & mv = w->mutex_vc[m];
+        if (mv.size() == t->vc.size()) for (size_t i = 0; i < mv.size(); i++) if (mv[i] > t->vc[i]) t->vc[i] = mv[i];
+        return 0;
+      }
+      if (rc != EBUSY) return rc;
+      // held outside the model: let somebody else run and retry
+      if (++spins > 100000) { w->res.stalled = true; return __real_pthread_mutex_lock(m); }
+      Task * next = pick_runnable(*w, -1, t);
+      if (next) switch_to(*w, t, next);
+      continue;
+    }
+    // owned by another simulated task: block
+    t->state = 1; t->waiting_on = m;
+    w->res.mutex_blocks++;
+    Task * next = pick_runnable(*w, -1, t);
+    if (!next) {
+      // every task is blocked: deadlock. Report to the controller and stay parked forever.
+      w->res.deadlock = true;
+      wake(&w->ctl_go);
+      park(&t->go); // never returns
+    }
+    switch_to(*w, t, next);
+    // resumed by the unlocker (state was set back to runnable)
+  }
+}
+
+int __wrap_pthread_mutex_trylock(pthread_mutex_t * m)
+{
+  Task * t = t_task; World * w = g_world;
+  if (!t || !w) return __real_pthread_mutex_trylock(m);
+  int rc = __real_pthread_mutex_trylock(m);
+  if (rc == 0) {
+    w->owner[m] = t->id;
+    auto & mv = w->mutex_vc[m];
+    if (mv.size() == t->vc.size()) for (size_t i = 0; i < mv.size(); i++) if (mv[i] > t->vc[i]) t->vc[i] = mv[i];
+  }
+  return rc;
+}
+
+int __wrap_pthread_mutex_unlock(pthread_mutex_t * m)
+{
+  Task * t = t_task; World * w = g_world;
+  if (!t || !w) return __real_pthread_mutex_unlock(m);
+  auto it = w->owner.find(m);
+  if (it == w->owner.end() || it->second != t->id) return __real_pthread_mutex_unlock(m); // not tracked (locked before the run)
+  w->mutex_vc[m] = t->vc;
+  t->vc[(size_t)t->id]++;
+  w->owner[m] = -1;
+  int rc = __real_pthread_mutex_unlock(m);
+  for (Task * o : w->tasks) if (o->state == 1 && o->waiting_on == m) { o->state = 0; o->waiting_on = nullptr; }
+  sched_point(SP_MUTEX, 1);
+  return rc;
+}
+
+} // extern "C"
